@@ -1,5 +1,4 @@
-SPECIFICATION Spec
-CONSTANT Family <- FamQuick
+SPECIFICATION SpecQuick
 INVARIANT InjectiveIsInjective
 INVARIANT InverseInverts
 INVARIANT MonContCovers
